@@ -551,6 +551,11 @@ impl<Writer: Write> Mp4Writer<Writer> {
         if converted.len() > u32::MAX as usize {
             return Err(Mp4WriterError::DurationOverflow);
         }
+        // The composition offset (pts - dts) is stored as a signed 32-bit field.
+        let cts = i128::from(pts) - i128::from(dts);
+        if cts > i128::from(i32::MAX) || cts < i128::from(i32::MIN) {
+            return Err(Mp4WriterError::DurationOverflow);
+        }
 
         // The frame is accepted: only now touch the writer state.
         if let Some(delta) = prev_delta {
